@@ -678,6 +678,40 @@ pub fn drive_ctor(a: &Args, thorough: bool) {
         n += 1;
 
     }
+    // the position array's initialiser (the comparison side's constructor): lengths from far beyond
+    // the contract (every power of two a narrowed length could wrap at, +0..64), and symbols outside
+    // the alphabet at the first / middle / last position; the array is a REUSED one
+    #[allow(deprecated)]
+    {
+        use ssdeep::internal_comparison::{BlockHashPositionArray, BlockHashPositionArrayData};
+        let mut lens: Vec<usize> = vec![0, 1, 7, 63, 64, 65, 66, 100, 127, 128, 129, 192, 255];
+        for p in [256usize, 512, 1024, 65536, 131072] {
+            lens.extend_from_slice(&[p, p + 1, p + 32, p + 63, p + 64, p + 65]);
+        }
+        for (i, &ln) in lens.iter().enumerate() {
+            if i % 8 == 0 {
+                sh.next_unit();
+            }
+            for bad in [None, Some((0usize, 64u8)), Some((ln / 2, 128)), Some((ln.saturating_sub(1), 255))] {
+                if bad.is_some() && ln == 0 {
+                    continue;
+                }
+                let mut v: Vec<u8> = (0..ln).map(|j| ((j * 11 + i) % 64) as u8).collect();
+                if let Some((at, sym)) = bad {
+                    v[at] = sym;
+                }
+                let mut pa = BlockHashPositionArray::new();
+                pa.init_from(&[5, 6, 7, 8, 9, 10, 11, 12, 13]);
+                let r = catch_unwind(AssertUnwindSafe(|| pa.init_from(&v)));
+                let valid = catch_unwind(AssertUnwindSafe(|| pa.is_valid())).unwrap_or(false);
+                sh.emit(&format!(
+                    "{{\"ev\":\"pctor\",\"len\":{},\"bad_at\":{},\"res\":\"{}\",\"valid\":{},\"len_after\":{}}}",
+                    ln, bad.map(|b| b.0 as i64).unwrap_or(-1), if r.is_ok() { "ok" } else { "panic" }, valid, pa.len()
+                ));
+                n += 1;
+            }
+        }
+    }
     println!("STATS {{\"ctor\":{{\"calls\":{},\"aimed_at_a_contract_clause\":{}}}}}", n, violating);
     sh.finish();
 }
